@@ -51,7 +51,7 @@ def features(crate, fn_path):
             c = t["callee"]
             p = c.get("resolved") or c.get("path") or ""
             g = crate.fn(p) if c.get("resolved_crate", c.get("crate")) == crate.name else None
-            if g is not None and p in light and p not in twin_members and p not in lex.WRAPPERS \
+            if g is not None and p in light and p not in twin_members and p not in lex.WRAPPERS and p not in lex.thin_wrappers(crate) \
                     and p.startswith("parse::Parser::<R>::") and not g.is_pub:
                 work.append(g)
     helper_paths = seen - {root.path}
